@@ -89,11 +89,9 @@ impl SimplePatternGroup {
 //@ WITH
     vf_iter(filters)
 //@ ENDSUBST
-//@ SUBST R8
-    |f| matches!(f.filter, FilterPart::Empty)
-//@ WITH
-    |f: &NetworkFilter| -> (b: bool) ensures b == (f.filter is Empty) { matches!(f.filter, FilterPart::Empty) }
-//@ ENDSUBST
+//@ CLOSURE? @matches!(f.filter, FilterPart::Empty)
+    |f: &NetworkFilter| -> (b: bool) ensures b == (f.filter is Empty)
+//@ ENDCLOSURE
 //@ SUBST R8
     |f| f.is_complete_regex()
 //@ WITH
